@@ -30,12 +30,17 @@ type Lens[S, A any] interface {
 func NewLens[S, A any](t hseq.Type[S]) Lens[S, A] {
 	ft := t.Type
 	fv := reflect.TypeOf(new(A)).Elem()
+	cat := reflect.TypeOf(new(S)).Elem()
+
+	// the focus is addressed by offset from a *S: S itself has to be the struct
+	if cat.Kind() != reflect.Struct {
+		panic(fmt.Errorf("invalid type: Lens[%s, %s] container is not a struct", cat.String(), fv.Name()))
+	}
 
 	if ft.String() == fv.String() && ft.AssignableTo(fv) {
 		return &lens[S, A]{t}
 	}
 
-	cat := reflect.TypeOf(new(S)).Elem()
 	panic(fmt.Errorf("invalid type: Lens[%s, %s] not compatible with %s", cat.Name(), ft.Name(), fv.Name()))
 }
 
